@@ -362,7 +362,7 @@ def replay(case):
     k = case["kind"]
     if k == "fresh":
         return freshcmp.replay(case)
-    if k == "toy-reload":
+    if k in ("toy-reload", "toy-size"):
         from vf.checks import toyreload
         return toyreload.replay(case, ("placement-after-reload",))
     if k == "word":
